@@ -1354,6 +1354,9 @@ class BayesianNetwork(DAG):
             for cpd in virtual_evidence:
                 var = cpd.variables[0]
                 new_var = "__" + str(var)
+                # The auxiliary child must be a new node.
+                while new_var in model.nodes():
+                    new_var = "_" + new_var
                 model.add_edge(var, new_var)
                 values = compat_fns.get_compute_backend().vstack(
                     (cpd.values, 1 - cpd.values)
